@@ -59,6 +59,15 @@ class PlaceRef:
         return "PlaceRef(%s)" % pp(self.node)
 
 
+class CondOpt:
+    """`cond.then(|| v)` with a symbolic condition: Some(v) exactly when cond holds; v is computed only when the condition is decided true."""
+    def __init__(self, cond, thunk):
+        self.cond, self.thunk = cond, thunk
+
+    def __repr__(self):
+        return "CondOpt(%s)" % (self.cond,)
+
+
 class FnVal:
     """A function passed by path where a closure is expected (`.map(N::from_real)`, `.unwrap_or_else(N::zero)`)."""
     def __init__(self, node):
@@ -744,6 +753,55 @@ class Interp:
             r = self.method_hooks[name](self, n)
             if r is not NotImplemented:
                 return r
+        if name in ("then", "then_some") and len(n["args"]) == 1 and "bool" in (n.get("def") or ""):
+            c = self.ev(n["recv"])
+            a0 = n["args"][0]
+            if name == "then_some":
+                val = self.ev(a0)
+                thunk = lambda: val
+            elif a0.get("k") == "Closure":
+                thunk = lambda: self.apply_closure(ClosureVal(a0, None), [], n)
+            else:
+                raise Unsupported(n, "bool::then with a non-closure")
+            if c is sp.true or c is True:
+                return Variant("Some", [thunk()])
+            if c is sp.false or c is False:
+                return Variant("None")
+            return CondOpt(c, thunk)
+        if name in ("unwrap_or", "unwrap_or_else", "unwrap_or_default", "map", "is_some", "is_none", "ok_or", "ok_or_else") and len(n["args"]) <= 1:
+            rv_ = None
+            try_recv = peel(n["recv"])
+            if try_recv.get("k") in ("MCall", "Local", "Block", "Call"):
+                # only Option values built by `then` / known variants are handled here; everything else falls through to the ordinary rules
+                probe = None
+                if try_recv.get("k") == "Local":
+                    probe = self.env.get(try_recv.get("id"))
+                if isinstance(probe, CondOpt) or (try_recv.get("k") in ("MCall", "Block") and any(x.get("k") == "MCall" and x["name"] in ("then", "then_some") and "bool" in (x.get("def") or "") for x in walk(n["recv"], into_closures=False))):
+                    rv_ = self.ev(n["recv"])
+            if isinstance(rv_, (CondOpt, Variant)) and (isinstance(rv_, CondOpt) or rv_.name in ("Some", "None")):
+                if name == "is_some" and isinstance(rv_, CondOpt):
+                    return rv_.cond
+                if name == "is_none" and isinstance(rv_, CondOpt):
+                    return sp.Not(rv_.cond)
+                v_ = self.force_opt(rv_, n)
+                some = v_.name == "Some"
+                if name in ("is_some", "is_none"):
+                    return sp.true if some == (name == "is_some") else sp.false
+                if name == "unwrap_or":
+                    return v_.args[0] if some else self.ev(n["args"][0])
+                if name == "unwrap_or_default":
+                    return v_.args[0] if some else sp.Integer(0)
+                if name == "unwrap_or_else":
+                    return v_.args[0] if some else self.apply_closure(ClosureVal(n["args"][0], None), [], n)
+                if name == "map":
+                    a0 = n["args"][0]
+                    if a0.get("k") != "Closure":
+                        raise Unsupported(n, "Option::map with a non-closure")
+                    return Variant("Some", [self.apply_closure(ClosureVal(a0, None), [v_.args[0]], n)]) if some else v_
+                if name == "ok_or":
+                    return Variant("Ok", list(v_.args)) if some else Variant("Err", [self.ev(n["args"][0])])
+                if name == "ok_or_else":
+                    return Variant("Ok", list(v_.args)) if some else Variant("Err", [self.apply_closure(ClosureVal(n["args"][0], None), [], n)])
         if name == "contains" and len(n["args"]) == 1:
             rp = n["recv"]
             while isinstance(rp, dict) and rp.get("k") in ("Paren", "DropTemps", "Use", "Ref"):
@@ -935,8 +993,28 @@ class Interp:
                 return None
         raise Unsupported(n, "while unroll limit")
 
+    def decide_now(self, c, n):
+        if c is sp.true or c is True:
+            return True
+        if c is sp.false or c is False:
+            return False
+        d = self.if_hook(self, n, c) if self.if_hook is not None else None
+        if d is None:
+            raise Unsupported(n, "undecided condition %s" % (c,))
+        return d
+
+    def force_opt(self, v, n):
+        """A CondOpt decided: -> Variant Some(value) / None."""
+        if isinstance(v, CondOpt):
+            return Variant("Some", [v.thunk()]) if self.decide_now(v.cond, n) else Variant("None")
+        return v
+
     def ev_Let(self, n):
-        raise Unsupported(n, "let-expression")
+        """`if let PAT = e` / `while let PAT = e` as a condition over a *known* Option/Result value (binds on success)."""
+        v = self.force_opt(self.ev(n["init"]), n)
+        if not isinstance(v, Variant):
+            raise Unsupported(n, "let-expression")
+        return sp.true if self.bind_refutable(n["pat"], v, n) else sp.false
 
     def ev_Match(self, n):
         raise Unsupported(n, "match")
